@@ -44,6 +44,18 @@ SEEDS = {
  'C18-2': dict(f='seed_c18_amp_ramp_bounds.rs', **integ(PN_D + '/stableswap_3pool', 'stableswap-3pool', 'seed_c18_amp_ramp_bounds.rs')),
  'C19-1': dict(f='c19_router_unregistered_hop.rs', **integ('contracts/liquidity_hub/fee_collector', 'fee_collector', 'c19_router_unregistered_hop.rs')),
  'C19-2': dict(f='c19_trio_permutations.rs', **integ('contracts/liquidity_hub/fee_collector', 'fee_collector', 'c19_trio_permutations.rs')),
+ 'C20-1': dict(f='c20_seed1_demo.rs', **integ('contracts/liquidity_hub/fee_distributor', 'fee_distributor', 'c20_seed1_demo.rs')),
+ 'C20-2': dict(f='c20_seed2_demo.rs', **integ('contracts/liquidity_hub/epoch-manager', 'epoch-manager', 'c20_seed2_demo.rs')),
+ 'C03-1': dict(f='seeded_c03_1.rs', **integ(PN_D + '/terraswap_pair', 'terraswap-pair', 'seeded_c03_1.rs')),
+ 'C03-2': dict(f='seeded_c03_2.rs', **integ(PN_D + '/terraswap_pair', 'terraswap-pair', 'seeded_c03_2.rs')),
+ 'C01-3': dict(f='c01_deposit_with_pending_fees.rs', **integ(PN_D + '/terraswap_pair', 'terraswap-pair', 'c01_deposit_with_pending_fees.rs')),
+ 'C01-4': dict(f='c01_locked_minimum_liquidity.rs', **integ(PN_D + '/terraswap_pair', 'terraswap-pair', 'c01_locked_minimum_liquidity.rs')),
+ 'C08-3': dict(f='seeded_c08_3.rs', **integ('contracts/liquidity_hub/whale_lair', 'whale-lair', 'seeded_c08_3.rs')),
+ 'C08-4': dict(f='seeded_c08_4.rs', **integ('contracts/liquidity_hub/whale_lair', 'whale-lair', 'seeded_c08_4.rs')),
+ 'C09-3': dict(f='c09_seed3_grace_increase.rs', **integ('contracts/liquidity_hub/fee_collector', 'fee_collector', 'c09_seed3_grace_increase.rs')),
+ 'C09-4': dict(f='c09_seed4_empty_epoch.rs', **integ('contracts/liquidity_hub/fee_collector', 'fee_collector', 'c09_seed4_empty_epoch.rs')),
+ 'C13-3': dict(f='seeded_c13_3_claim_pays_as_quoted.rs', **integ(PN_D + '/incentive', 'incentive', 'seeded_c13_3_claim_pays_as_quoted.rs')),
+ 'C13-4': dict(f='seeded_c13_4_expand_for_receiver_weights.rs', **integ(PN_D + '/incentive', 'incentive', 'seeded_c13_4_expand_for_receiver_weights.rs')),
 }
 try: SEEDS.update(json.load(open(V + '/seeded/extra_seeds.json')))
 except Exception: pass
